@@ -1015,12 +1015,19 @@ impl Eq for RelayConnectionState {}
 #[derive(Debug, Clone)]
 pub(crate) struct HomeRelayWatch {
     inner: Watchable<Option<RelayStatus>>,
+    /// Serializes all writers.
+    ///
+    /// [`Self::set_status`] is a check-then-write on `inner`, it must not interleave
+    /// with a URL change from [`Self::set`] or [`Self::clear`], otherwise a demoted
+    /// relay could republish its URL after the new home relay was set.
+    write_lock: Arc<std::sync::Mutex<()>>,
 }
 
 impl Default for HomeRelayWatch {
     fn default() -> Self {
         Self {
             inner: Watchable::new(None),
+            write_lock: Default::default(),
         }
     }
 }
@@ -1028,11 +1035,13 @@ impl Default for HomeRelayWatch {
 impl HomeRelayWatch {
     /// Set the home relay URL and status. Used by [`RelayActor`] on relay changes.
     fn set(&self, url: RelayUrl, state: RelayConnectionState) {
+        let _guard = self.write_lock.lock().expect("poisoned");
         let _ = self.inner.set(Some(RelayStatus::new(url, state)));
     }
 
     /// Clear the home relay (no preferred relay). Used by [`RelayActor`].
     fn clear(&self) {
+        let _guard = self.write_lock.lock().expect("poisoned");
         let _ = self.inner.set(None);
     }
 
@@ -1045,6 +1054,7 @@ impl HomeRelayWatch {
     fn set_status(&self, url: &RelayUrl, state: RelayConnectionState) {
         #[cfg(feature = "verif-hooks")]
         crate::verif_hooks::pause("homerelay.set_status.enter");
+        let _guard = self.write_lock.lock().expect("poisoned");
         if self.inner.get().as_ref().map(RelayStatus::url) == Some(url) {
             #[cfg(feature = "verif-hooks")]
             crate::verif_hooks::pause("homerelay.between_get_and_set");
